@@ -42,6 +42,7 @@ def run(ctx, sess):
     ctx.rule('C03.r', 'pointer repair ends every chain it walked: each local copy of a chunk header that jls_track_repair_pointers keeps as the last good chunk of a chain (the index, its summary, the data chunk) has its item_next cleared and is rewritten - none is left pointing past the cut')
     ctx.rule('C03.s', 'repair continues behind blocks that were left out: the offset at which the level-0 walk of the FSR rebuild starts is taken from a level-1 index entry, and an entry is 0 for a block that was left out - the walk goes back to the last entry that names a stored block, and the sample id it expects next is the end of what the stored level-1 pair covers, not the end of that block (else complete blocks that follow left-out ones are dropped although they are on disk)')
     ctx.rule('C03.t', 'the open of an unclosed file survives its own re-open: a file that needs repair has no length in its header, and jls_raw_open reports exactly that with JLS_ERROR_TRUNCATED - wherever jls_rd_open re-opens the file for writing, that result is compared with JLS_ERROR_TRUNCATED before the error exit is taken (a plain `if (rc) goto exit` turns every stop in that window into a file that cannot be opened)')
+    ctx.rule('C03.v', 'repair accepts every SUMMARY the writer produces: the bound it puts on the length of a stored level summary, evaluated for a level of 10 entries of 4 x f64 (entry_size_bits 256, what 32- and 64-bit types get), is at least header + 10 x 32 bytes - a bound built on the f32 entry rejects every summary of such a signal, and the rebuild stops at the last indexed block')
     ctx.rule('C03.n', 'repair copies a chunk into a typed buffer only after checking what it is: every memcpy of the bytes just read into a level / sample buffer is preceded by a compare of the chunk tag and by a compare of the length with the capacity of the destination')
     ctx.rule('C03.d', 'truncation is reachable only from the repair branch of jls_rd_open')
     ra(ctx, P)
@@ -61,6 +62,7 @@ def run(ctx, sess):
     repair_chains_rule(ctx, P, 'C03.r')
     repair_omitted_tail_rule(ctx, P, 'C03.s')
     append_open_rule(ctx, P, 'C03.t')
+    repair_summary_bound_rule(ctx, P, 'C03.v')
     end_at_end_rule(ctx, P)
     from .c14 import head_table_rule, WRITER_ROOT_PREFIXES
     roots = sorted(f.name for f in P.all_functions() if f.api and f.name.startswith(WRITER_ROOT_PREFIXES))
@@ -948,3 +950,37 @@ def append_open_rule(ctx, P, rule):
                'the result is compared with JLS_ERROR_TRUNCATED before it counts as a failure' if tolerant else
                'any non-zero result ends the open: jls_raw_open returns JLS_ERROR_TRUNCATED for a header without a length - the very state this branch is there to repair - so the file cannot be opened (once; the error path may leave a length behind)')
     ctx.floor('writable re-opens in jls_rd_open', n, 2)
+
+
+def repair_summary_bound_rule(ctx, P, rule):
+    from ..fd import FD, Top
+    fn = P.fn('jls_core_repair_fsr')
+    ctx.saw(fn, 1)
+    fd = FD(P)
+    n = 0
+    for b in fn.blocks.values():
+        c = strip_casts(b.cond) if b.cond is not None else None
+        if c is None or c.get('op') != 'bin' or c['o'] not in ('>', '>='):
+            continue
+        l, r = strip_casts(c['k'][0]), c['k'][1]
+        if not (l.get('op') == 'member' and l.get('field') == 'payload_length'):
+            continue
+        if not any(m.get('op') == 'member' and m.get('field') == 'summary_entries' for m in walk(r)):
+            continue
+        n += 1
+        env = {}
+        for m in walk(r):
+            if m.get('op') == 'member' and fn.path(m) is not None:
+                if m.get('field') == 'summary_entries':
+                    env[str(fn.path(m))] = 10
+                if m.get('field') == 'entry_size_bits':
+                    env[str(fn.path(m))] = 256
+        try:
+            v = fd.ev(fn, r, env)
+        except (Top, ZeroDivisionError):
+            raise AnalysisBroken('jls_core_repair_fsr: bound on the summary length not evaluable: %s' % show(r)[:80])
+        ok = v >= 16 + 10 * 32
+        ctx.ob(rule, ok, fn.name, 'bound on the length of a stored SUMMARY', '%s:%d' % (fn.file, b.line),
+               'allows %d bytes for 10 entries of 256 bits' % v if ok else
+               'allows only %d bytes for 10 entries of 256 bits (header + 10 x 32 = 336 are needed): every level summary of an i32 / u32 / i64 / u64 / f64 signal is taken for a broken link, the rebuild of an unclosed file stops there and the signal ends at the last indexed block' % v)
+    ctx.floor('bounds on a stored SUMMARY in the FSR rebuild', n, 1)
